@@ -203,6 +203,7 @@ def run(rep, tier, seed):
   SHARE = tier != "thorough"   # quick: one loader per worker process; violations re-checked with a fresh one
   progs = progspace.programs(tier)
   progs += [(i, src, None) for i, src in defspace.programs(tier)]
+  progs += progspace.padded_programs(tier)
   for (i, src, seq), (bad, info, mseq) in vrun.pmap(work, progs, seed=seed, maxtasks=400, progress=2000):
     rep.evaluations += 1
     rep.outcome(info["outcome"])
